@@ -131,6 +131,10 @@ pub struct DriveSys {
     pub trickle: usize,
     pub slice_mode: bool,
     pub has_checksum: bool,
+    /// C08's view of the same exploration: the bytes handed out are recorded as they are (a C06-owned mismatch with
+    /// the content is not fatal here), and the terminal check is literally C08's statement: the calculated checksum
+    /// equals XXH64 of exactly the bytes that were handed out, in order
+    pub c08_view: std::sync::atomic::AtomicBool,
     pub nblocks: usize,
     pub terminal_checks: AtomicU64,
     pub first_terminal: Mutex<Option<Vec<Op>>>,
@@ -161,7 +165,7 @@ impl DriveSys {
     }
     pub fn new_mode(seed: Seed, trickle: usize, slice_mode: bool, stream_mode: bool) -> DriveSys {
         let w = zmodel::walker::walk(&seed.frame, None).expect("seed must be valid");
-        DriveSys { stream_mode, frame_arc: Arc::new(seed.frame.clone()), window: w.header.window_size as usize, has_checksum: w.header.checksum_flag, nblocks: w.blocks.len(), seed, trickle, slice_mode, terminal_checks: AtomicU64::new(0), first_terminal: Mutex::new(None) }
+        DriveSys { c08_view: std::sync::atomic::AtomicBool::new(false), stream_mode, frame_arc: Arc::new(seed.frame.clone()), window: w.header.window_size as usize, has_checksum: w.header.checksum_flag, nblocks: w.blocks.len(), seed, trickle, slice_mode, terminal_checks: AtomicU64::new(0), first_terminal: Mutex::new(None) }
     }
     fn d<'a>(&self, l: &'a Live) -> &'a FrameDecoder {
         match &l.stream {
@@ -171,6 +175,10 @@ impl DriveSys {
     }
     fn take(&self, l: &mut Live, got: &[u8], what: &str) -> Result<(), String> {
         let exp = &self.seed.plain[l.delivered.len().min(self.seed.plain.len())..];
+        if (got.len() > exp.len() || exp[..got.len()] != *got) && self.c08_view.load(Ordering::Relaxed) {
+            l.delivered.extend_from_slice(got);
+            return Ok(());
+        }
         if got.len() > exp.len() || exp[..got.len()] != *got {
             let first = got.iter().zip(exp.iter()).position(|(a, b)| a != b);
             return Err(format!("{what} delivered {} bytes that are not the next bytes of the content (already delivered {}, content {}; first difference at {:?}): bytes lost, duplicated or reordered", got.len(), l.delivered.len(), self.seed.plain.len(), first));
@@ -409,16 +417,19 @@ impl System for DriveSys {
         let dec = self.d(l);
         if dec.is_finished() && dec.can_collect() == 0 && (l.pos > 0) {
             // terminal: everything delivered, exact consumption, checksums
-            if l.delivered != self.seed.plain {
+            let c08 = self.c08_view.load(Ordering::Relaxed);
+            if l.delivered != self.seed.plain && !c08 {
                 return Err(format!("finished and drained, but {} of {} content bytes were delivered", l.delivered.len(), self.seed.plain.len()));
             }
             if l.pos != self.seed.frame.len() {
                 return Err(format!("finished after consuming {} of the frame's {} bytes", l.pos, self.seed.frame.len()));
             }
-            let want = zmodel::xxh::checksum32(&self.seed.plain);
-            if dec.get_calculated_checksum() != Some(want) {
-                return Err(format!("[C08] calculated checksum {:?} after all output was taken; XXH64 of the delivered bytes is {want:#x}", dec.get_calculated_checksum()));
+            // (in C06's view delivered == content here; in C08's view it is whatever was really handed out)
+            let handed_out = zmodel::xxh::checksum32(&l.delivered);
+            if dec.get_calculated_checksum() != Some(handed_out) {
+                return Err(format!("[C08] calculated checksum {:?} after all output was taken; XXH64 of the {} bytes handed out is {handed_out:#x}", dec.get_calculated_checksum(), l.delivered.len()));
             }
+            let want = zmodel::xxh::checksum32(&self.seed.plain);
             if self.has_checksum && dec.get_checksum_from_data() != Some(want) {
                 return Err(format!("[C08] checksum from data {:?}, the frame stores {want:#x}", dec.get_checksum_from_data()));
             }
@@ -523,6 +534,7 @@ pub fn explore(run: &mut Run, tier: Tier, prop: &str) -> Totals {
         }
     }
     for sys in &systems {
+        sys.c08_view.store(prop == "C08", Ordering::Relaxed);
         let (st, found) = xplore::bfs(sys, &caps);
         let mode = if sys.stream_mode { format!("StreamingDecoder over a reader handing out {} per call", if sys.trickle == 0 { "everything".to_string() } else { format!("{} byte(s)", sys.trickle) }) } else if sys.slice_mode { "decode_from_to".to_string() } else if sys.trickle == 0 { "reader (slice)".to_string() } else { format!("reader ({} byte(s) per read)", sys.trickle) };
         println!("{prop} [{} | {mode}]: states={} transitions={} depth={} terminal_states={} exhausted={} {:.1}s {:?}", sys.seed.name, st.states, st.transitions, st.max_depth, st.terminal_states, st.exhausted, st.wall_s, st.cap_hit);
@@ -590,6 +602,7 @@ pub fn do_replay(_tier: Tier, r: &Value, prop: &str) -> i32 {
         return 2;
     };
     let sys = DriveSys::new_mode(seed, r["trickle"].as_u64().unwrap_or(0) as usize, r["slice_mode"].as_bool().unwrap_or(false), r["stream_mode"].as_bool().unwrap_or(false));
+    sys.c08_view.store(prop == "C08", Ordering::Relaxed);
     let ops: Vec<Op> = r["ops"].as_array().unwrap().iter().map(op_from).collect();
     let mut res = vec![];
     for _ in 0..2 {
